@@ -18,6 +18,9 @@ impl C17 {
         let ok = r.is_ok();
         let kind = op.kind();
         let was_admin = pre.admins.iter().any(|a| a == sender);
+        if !was_admin && pre.admins.iter().any(|a| a.eq_ignore_ascii_case(sender)) {
+            h.out.count("calls_by_lookalike_of_an_admin");
+        }
         let is_former = !was_admin && former.iter().any(|f| f == sender);
         let class = if was_admin { 0 } else if is_former { 1 } else if pre.raw.contains_key(sender) || pre.perms.contains_key(sender) { 2 } else { 3 };
         h.out.distinct(&(p.kind, kind, r.class(), class, pre.mutable));
@@ -177,6 +180,9 @@ impl Monitor for C17 {
             "grant_calls_by_non_admin_rejected",
             "grant_calls_by_former_admin_rejected",
             "immutable_instantiations",
+            "migrations_run",
+            "migrations_of_a_frozen_proxy",
+            "calls_by_lookalike_of_an_admin",
         ]
     }
     fn rule(&self) -> &'static str {
@@ -206,7 +212,29 @@ impl Monitor for C17 {
         let mut frozen = !mutable;
         let mut former: Vec<String> = vec![];
         let n = h.tier.pick(60, 100);
-        for _ in 0..n {
+        let migrate_at = if kind == Kind::Subkeys && h.idx % 3 == 1 { h.rng.range(5, 50) as usize } else { usize::MAX };
+        for i in 0..n {
+            if i == migrate_at {
+                // upgrade from an older release: code migration must not touch the admin list / frozen flag / grants
+                let v = *h.rng.pick(&["0.13.4", "0.9.1", "1.0.0", "1.1.2", "2.0.0"]);
+                cw2::set_contract_version(&mut p.w.store, "crates.io:cw1-subkeys", v).unwrap();
+                let r = p.w.tx(|d, e| cw1_subkeys::contract::migrate(d, e, cosmwasm_std::Empty {}));
+                h.out.evaluations += 1;
+                h.note(format!("migrate from {v} => {}", r.class()));
+                if r.is_ok() {
+                    h.out.count("migrations_run");
+                    if !pre.mutable {
+                        h.out.count("migrations_of_a_frozen_proxy");
+                    }
+                }
+                let post = p.snap();
+                if !h.check(post == pre, "C17/Subkeys/migrate/admin-list-flag-or-grants-changed-by-migration", || {
+                    format!("migrate from {v}: {pre:?} -> {post:?}")
+                }) {
+                    return;
+                }
+                continue;
+            }
             if h.rng.chance(1, 8) {
                 let s = pre.clone();
                 gen_advance(&mut h.rng, &mut p, &s);
